@@ -27,7 +27,7 @@ def libs(version):
         from rsocket.rx_support.rx_channel import RxChannel as Channel
         from rsocket.rx_support.back_pressure_publisher import from_observable_with_backpressure, observable_from_async_generator
     return dict(rx=rxm, ops=ops, Subject=Subject, Client=Client, handler_factory=handler_factory, BaseHandler=BaseHandler, Channel=Channel,
-                with_backpressure=from_observable_with_backpressure, from_agen=observable_from_async_generator)
+                with_backpressure=from_observable_with_backpressure, from_agen=observable_from_async_generator, version=version)
 
 
 class RecObserver:
@@ -141,16 +141,26 @@ def make_handler_class(w, L):
             rx = L['rx']
             w.rec.log(self.ep, 'app_producer', iid=iid, role='resp', kind='observable', n=-1)
             mode = pol.get('mode', 'immediate')
+
+            def shaped(obs):
+                # a delegate may hand the observable over directly or inside a future (what RequestRouter does with every route's result;
+                # the ReactiveX v4 adapter accepts both)
+                if pol.get('as_future') and L.get('version') == 'reactivex':
+                    import asyncio
+                    f = asyncio.get_event_loop().create_future()
+                    f.set_result(obs)
+                    return f
+                return obs
             if mode == 'error':
                 w.rec.log(self.ep, 'app_respond', iid=iid, pid=0, code=0x201)
-                return rx.throw(RuntimeError('app: response error'))
+                return shaped(rx.throw(RuntimeError('app: response error')))
             if mode == 'empty':
                 w.rec.log(self.ep, 'app_respond', iid=iid, pid=0)
-                return rx.empty()
+                return shaped(rx.empty())
             spec = tuple(pol.get('resp', (5, 0)))
             pid, p = w.payloads.make(*spec)
             w.rec.log(self.ep, 'app_respond', iid=iid, pid=pid, dl=spec[0], ml=spec[1])
-            return rx.of(p)
+            return shaped(rx.of(p))
 
         async def request_stream(self, payload):
             iid = self._iid(payload, 'stream')
